@@ -127,6 +127,19 @@ def run(chk: Check):
             warnings.simplefilter("ignore")
             lines, info = ch.run_real(scn)
         chk.case(scn_json(scn), any(o[0] == "R" for o in scn.ops), {"stub_ops": [o[:2] for o in scn.ops]})
+        # the statement itself on the real code: when every restore comes right after a checkpoint of the current state (saving folder: after
+        # every batch; explicit: a create_checkpoint() with no batch in between), the final history equals that of the same calls without any
+        # checkpoint or restore
+        resumes_current = all(o[0] != "R" or scn.folder or (j > 0 and scn.ops[j - 1][0] == "K") for j, o in enumerate(scn.ops)) and any(o[0] == "R" for o in scn.ops)
+        if resumes_current and not lines[-1].startswith(("raise", "hang", "no-checkpoint")):
+            plain = copy.deepcopy(scn); plain.ops = [o for o in scn.ops if o[0] == "C"]; plain.folder = False
+            with warnings.catch_warnings():
+                warnings.simplefilter("ignore")
+                plines, _ = ch.run_real(plain)
+            bad = [f for f in ch.diff_fields(lines[-1], plines[-1]) if f in ("n", "b", "params", "losses", "series", "bn", "ms")]
+            chk.count("stub:compared_with_the_uninterrupted_run")
+            if bad:
+                chk.fail(f"stub scenario {[o[:2] for o in scn.ops]}: after checkpoints and restores the history differs from the uninterrupted run in {bad}", {"case": {"kind": "stub", "scn": scn_json(scn)}})
         ok, k, a, b = ch.compare(scn, lines, info)
         if not ok:
             chk.disagree("Calibrator checkpoint/restore/continue != BlackIt.Calibrator",
